@@ -4,6 +4,7 @@ import HexProofs.Manager2.ShiftInst
 import HexProofs.Manager2.TwinSched
 import HexProofs.Manager2.TwinWindow
 import HexProofs.Footprint.Schedule
+import HexProofs.Manager2.TwinTrees
 import HexProofs.Framework.Gen.AllX
 import HexProofs.Lib.IntInst
 import HexProps.C03
@@ -414,10 +415,12 @@ theorem C15b_leaf (k : Kind F) (name : String) (round : Nat) (hc : Covered name 
 theorem C15b_leaf_total (k : Kind F) (name : String) (hc : Covered name k) : ∃ W, Hex.window k = some W :=
   hc.window_some
 
-/-- **What is still open for the second clause**: composite indicators (their helper series must be retained
-as well: the look-back of a tree is the maximum over its nodes, and the resume logic of every helper must find
-its predecessor), members of a Hexital, and the combination with a collapsing timeframe (first clause:
-`schedule_tf`).  Covered by the C15b oracle (untrimmed twin, tightest admissible window) and the tie only. -/
+/-- **The second clause for every shipped class** – composite indicators included (their helper series must be
+retained as well: the look-back of a tree is the maximum over its nodes, and the resume logic of every helper
+must find its predecessor).  PROVED below (`C15b_trees_FULL_holds`, with the explicit look-back
+`Hex.treeLook` in `C15b_trees_look`).  Still open for the second clause: members of a Hexital and the
+combination with a collapsing timeframe (first clause: `schedule_tf`) – C15b oracle (untrimmed twin, tightest
+admissible window) and the tie only. -/
 def C15b_trees_FULL : Prop :=
   ∀ (k : Kind F) (name : String) (round : Nat), CoveredTreeX name k →
     ∃ L : Nat, ∀ (life : Int) (init : List (Candle F)) (chunks : List (List (Candle F))),
@@ -426,6 +429,22 @@ def C15b_trees_FULL : Prop :=
       ∀ a b, candlesOf (runIndicator (mkTop k name round) (cfgLife life) init chunks) = .ok a →
         candlesOf (runIndicator (mkTop k name round) {} init chunks) = .ok b →
         ∃ d, a = b.drop d
+
+/-- **`C15b_trees_FULL` holds**: for every one of the 27 shipped classes (`CoveredTreeX`: leaf kinds, VWAP / STDEV /
+RSI, ATR / KC / BBANDS / STDEVTHRES / Supertrend, MACD / HMA / STOCH / TSI / ADX) and EVERY append schedule on which
+each popping append retains the tree's look-back, the lifespan-trimmed indicator ends with the candles of its
+untrimmed twin minus the popped ones – top readings, helper series and `_data` series alike. -/
+theorem C15b_trees_FULL_holds : C15b_trees_FULL (F := F) := Hex.C15b_trees
+
+/-- … with the look-back made explicit: `treeLook k name round = max 1 (max over ALL nodes of the tree of the node's
+own window)`; e.g. ATR `max (p-1) 1`, RSI `max p 1`, MACD `max (max (fast-1) (slow-1)) (max (signal-1) 1)`. -/
+theorem C15b_trees_look (k : Kind F) (name : String) (round : Nat) (hc : CoveredTreeX name k)
+    (life : Int) (init : List (Candle F)) (chunks : List (List (Candle F)))
+    (hp : ∀ c ∈ init ++ chunks.flatten, Plain c) (hinit : trimCandles (some life) init = .ok init)
+    (hret : RetainsFrom (treeLook k name round) life init init.length chunks) (a b : List (Candle F))
+    (ha : candlesOf (runIndicator (mkTop k name round) (cfgLife life) init chunks) = .ok a)
+    (hb : candlesOf (runIndicator (mkTop k name round) {} init chunks) = .ok b) : ∃ d, a = b.drop d :=
+  Hex.C15b_trees_look k name round hc life init chunks hp hinit hret a b ha hb
 
 /-- **Every append schedule – EMA**, when the recurrence is already seeded after construction (the
 last candle of the constructed indicator holds a non-`None` EMA); ONE retained predecessor then
